@@ -1,7 +1,7 @@
 /-
   Lemmas for property C05: the interpreter model (`Interp.step`) never reaches a `.panic` on a program
-  accepted by the verifier model (`Verifier.check`).  The invariant `Safe` is defined here; the property
-  theorems themselves are in `Props/C05.lean`.
+  accepted by the verifier model (`Verifier.check`).  The property theorems themselves (and the invariant `Safe`, which unfolds to
+  `StartInv` below) are in `Props/C05.lean`.
 -/
 import RbpfModel.Model.Interp
 import RbpfModel.Model.Verifier
@@ -21,16 +21,8 @@ def Inv (env : Env) (top : Nat) (s : State) : Prop :=
   (∃ r10, s.reg[10]? = some r10 ∧
     r10.toNat + ((List.range s.frames.length).map (fun k => (s.usage[k]?).getD 0)).sum = top)
 
-/-- the invariant of C05: pc is an instruction start, every saved return address is an instruction start,
-    at most 8 frames, r10 = stack top − Σ frame sizes of the active callers -/
-def Safe (env : Env) (top : Nat) (s : State) : Prop :=
-  s.pc ∈ starts env.prog ∧ (∀ f ∈ s.frames, f.ret ∈ starts env.prog) ∧ s.frames.length ≤ 8 ∧
-  (∀ k, k < 8 → ∀ u, s.usage[k]? = some u → u < 65536) ∧
-  (∃ r10, s.reg[10]? = some r10 ∧
-    r10.toNat + ((List.range s.frames.length).map (fun k => (s.usage[k]?).getD 0)).sum = top)
-
-theorem safe_iff (env : Env) (top : Nat) (s : State) : Safe env top s ↔ s.pc ∈ starts env.prog ∧ Inv env top s :=
-  Iff.rfl
+/-- the invariant of C05 (`Safe` in `Props/C05.lean` is this, written out): pc is an instruction start, and `Inv` -/
+def StartInv (env : Env) (top : Nat) (s : State) : Prop := s.pc ∈ starts env.prog ∧ Inv env top s
 
 /-! ### outcomes that are not a panic and whose successor state satisfies `P` -/
 
@@ -308,7 +300,7 @@ theorem good_callLocal {env : Env} {top : Nat} {s : State} {i : Nat} {imm : BitV
     (hinv : Inv env top s) (htop : 2 ^ 20 ≤ top ∧ top < 2 ^ 63) (hpc : s.pc = i + 1)
     (hret : i + 1 ∈ starts env.prog)
     (htgt : 0 ≤ (i : Int) + 1 + imm.toInt ∧ ((i : Int) + 1 + imm.toInt).toNat ∈ starts env.prog) :
-    Good (fun s' => Safe env top s' ∧ s'.mem.mem.base = s.mem.mem.base) (callLocal s imm) := by
+    Good (fun s' => StartInv env top s' ∧ s'.mem.mem.base = s.mem.mem.base) (callLocal s imm) := by
   obtain ⟨hfr, hlen, hus, r10, h10, hsum⟩ := hinv
   unfold callLocal State.depth
   split
@@ -347,7 +339,7 @@ theorem good_callLocal {env : Env} {top : Nat} {s : State} {i : Nat} {imm : BitV
 
 theorem good_exitInsn {env : Env} {top : Nat} {s : State}
     (hinv : Inv env top s) (htop : 2 ^ 20 ≤ top ∧ top < 2 ^ 63) :
-    Good (fun s' => Safe env top s' ∧ s'.mem.mem.base = s.mem.mem.base) (exitInsn s) := by
+    Good (fun s' => StartInv env top s' ∧ s'.mem.mem.base = s.mem.mem.base) (exitInsn s) := by
   obtain ⟨hfr, hlen, hus, r10, h10, hsum⟩ := hinv
   unfold exitInsn
   split
@@ -396,7 +388,7 @@ theorem good_endian {P : State → Prop} {imm : BitVec 32} (h : imm = 16 ∨ imm
   rcases h with h | h | h <;> subst h <;> simp [ha, hb, hc]
 
 theorem post_safe {env : Env} {top : Nat} {s s' : State} {pc' : Nat} (hinv : Inv env top s)
-    (hpc : pc' ∈ starts env.prog) (h : Post s pc' s') : Safe env top s' ∧ s'.mem.mem.base = s.mem.mem.base := by
+    (hpc : pc' ∈ starts env.prog) (h : Post s pc' s') : StartInv env top s' ∧ s'.mem.mem.base = s.mem.mem.base := by
   obtain ⟨hk, hp⟩ := h
   exact ⟨⟨hp ▸ hpc, hinv.of_keeps hk⟩, hk.2.2.2⟩
 
@@ -405,12 +397,11 @@ theorem good_err {P : State → Prop} {e : ErrKind} {s : State} : Good P (.err e
 /-! ### one instruction -/
 
 attribute [local irreducible] Good rd wr load store xadd pktAbs branch callHelper callLocal exitInsn in
-set_option maxHeartbeats 1000000 in
 set_option maxRecDepth 4000 in
 theorem exec_good (env : Env) (top : Nat) (s : State) (i : Nat) (x : Insn)
     (hF : InsnFacts env.prog i x) (hpc : s.pc = i + 1) (hinv : Inv env top s)
     (htop : 2 ^ 20 ≤ top ∧ top < 2 ^ 63) (hmem : s.mem.mem.base + 2 ^ 32 < 2 ^ 64) :
-    Good (fun s' => Safe env top s' ∧ s'.mem.mem.base = s.mem.mem.base) (exec env s x) := by
+    Good (fun s' => StartInv env top s' ∧ s'.mem.mem.base = s.mem.mem.base) (exec env s x) := by
   have hsrc := hF.src
   have hdst := hF.dst
   have hd10 : x.dst.toNat ≤ 10 := by omega
@@ -423,10 +414,10 @@ theorem exec_good (env : Env) (top : Nat) (s : State) (i : Nat) (x : Insn)
     · exact (cast h hs).elim
   clear hdst
   have hft : x.opc.toNat ≠ 0x95 → x.opc.toNat ≠ 0x05 → x.opc.toNat ≠ 0x18 →
-      ∀ s', Post s s.pc s' → Safe env top s' ∧ s'.mem.mem.base = s.mem.mem.base :=
+      ∀ s', Post s s.pc s' → StartInv env top s' ∧ s'.mem.mem.base = s.mem.mem.base :=
     fun a b c _ h => post_safe hinv (hpc ▸ hF.next a b c) h
   have hjmp : arm x.opc.toNat = .jump → 0 ≤ (s.pc : Int) + x.off.toInt ∧
-      (Safe env top { s with pc := ((s.pc : Int) + x.off.toInt).toNat } ∧ s.mem.mem.base = s.mem.mem.base) := by
+      (StartInv env top { s with pc := ((s.pc : Int) + x.off.toInt).toNat } ∧ s.mem.mem.base = s.mem.mem.base) := by
     intro h
     obtain ⟨h0, h1⟩ := hF.jump h
     have : (s.pc : Int) + x.off.toInt = (i : Int) + 1 + x.off.toInt := by omega
@@ -481,5 +472,121 @@ theorem exec_good (env : Env) (top : Nat) (s : State) (i : Nat) (x : Insn)
        clear hjmp hft hF hd9 hd10 hsrc hinv hmem hpc htop
        unfold arm
        split <;> first | rfl | (rename_i h; exact absurd h (by assumption)))
+
+/-! ### one step -/
+
+theorem sum_range_congr (f g : Nat → Nat) (n : Nat) (h : ∀ k, k < n → f k = g k) :
+    ((List.range n).map f).sum = ((List.range n).map g).sum := by
+  induction n with
+  | zero => rfl
+  | succ n ih =>
+    rw [sum_range_succ, sum_range_succ, ih (fun k hk => h k (by omega)), h n (by omega)]
+
+/-- recording the frame size of the current function (slot `depth` of `usage`) keeps the invariant -/
+theorem Inv.setUsage {env : Env} {top : Nat} {s : State} {u : Nat} (hinv : Inv env top s) (hu : u < 65536) :
+    Inv env top { s with usage := s.usage.setIfInBounds s.depth u } := by
+  obtain ⟨hfr, hlen, hus, r10, h10, hsum⟩ := hinv
+  refine ⟨hfr, hlen, ?_, r10, h10, ?_⟩
+  · intro k hk v hv
+    have hv' : (s.usage.setIfInBounds s.depth u)[k]? = some v := hv
+    rw [Vector.getElem?_setIfInBounds] at hv'
+    split at hv'
+    · split at hv'
+      · cases hv'; exact hu
+      · cases hv'
+    · exact hus k hk v hv'
+  · show _ + ((List.range s.frames.length).map
+        (fun k => ((s.usage.setIfInBounds s.depth u)[k]?).getD 0)).sum = top
+    rw [sum_range_congr _ (fun k => (s.usage[k]?).getD 0)]
+    · exact hsum
+    · intro k hk
+      rw [Vector.getElem?_setIfInBounds_ne]
+      unfold State.depth; omega
+
+/-- the state `step` hands to `exec`, before `pc` is advanced -/
+def preState (env : Env) (s : State) : State :=
+  if s.depth < 8 then
+    match env.usage s.pc with
+    | some u => { s with usage := s.usage.setIfInBounds s.depth u }
+    | none => s
+  else s
+
+theorem step_eq (env : Env) (s : State) :
+    step env s =
+      if s.pc * 8 < env.prog.size then
+        match getInsn? env.prog s.pc with
+        | none => .panic
+        | some insn => exec env { preState env s with pc := s.pc + 1 } insn
+      else .panic := rfl
+
+theorem preState_inv {env : Env} {top : Nat} {s : State} (hu : ∀ pc u, env.usage pc = some u → u < 65536)
+    (hinv : Inv env top s) : Inv env top (preState env s) ∧ (preState env s).mem = s.mem := by
+  unfold preState
+  split
+  · split
+    · rename_i u hu'
+      exact ⟨hinv.setUsage (hu _ _ hu'), rfl⟩
+    · exact ⟨hinv, rfl⟩
+  · exact ⟨hinv, rfl⟩
+
+theorem step_good (env : Env) (top : Nat) (s : State) (hc : Verifier.check env.prog = .ok)
+    (hu : ∀ pc u, env.usage pc = some u → u < 65536)
+    (htop : 2 ^ 20 ≤ top ∧ top < 2 ^ 63) (hmem : s.mem.mem.base + 2 ^ 32 < 2 ^ 64)
+    (hs : StartInv env top s) :
+    Good (fun s' => StartInv env top s' ∧ s'.mem.mem.base = s.mem.mem.base) (step env s) := by
+  obtain ⟨hpcs, hinv⟩ := hs
+  have hlt := starts_lt s.pc hpcs
+  obtain ⟨x, hx⟩ := getInsn?_isSome_iff.2 (mem_sweepFrom_bounds hpcs).2
+  obtain ⟨hpi, hpm⟩ := preState_inv hu hinv
+  rw [step_eq, if_pos hlt, hx]
+  have hmem' : ({ preState env s with pc := s.pc + 1 } : State).mem.mem.base + 2 ^ 32 < 2 ^ 64 := by
+    show (preState env s).mem.mem.base + 2 ^ 32 < 2 ^ 64
+    rw [hpm]; exact hmem
+  have := exec_good env top { preState env s with pc := s.pc + 1 } s.pc x (insnFacts_of_check hc hpcs hx) rfl
+    (hpi.of_keeps ⟨rfl, rfl, rfl, rfl⟩) htop hmem'
+  refine Good.mono ?_ this
+  intro s' h
+  refine ⟨h.1, ?_⟩
+  rw [h.2]
+  show (preState env s).mem.mem.base = _
+  rw [hpm]
+
+/-! ### the initial state, and runs -/
+
+theorem init_startInv (env : Env) (m : Memory) (hc : Verifier.check env.prog = .ok)
+    (hm : m.stack.base + m.stack.bytes.size < 2 ^ 63) :
+    StartInv env (m.stack.base + m.stack.bytes.size) (Interp.init m) := by
+  obtain ⟨h8, h0, -⟩ := check_ok_len hc
+  refine ⟨starts_ne_nil (by omega), ?_, ?_, ?_, BitVec.ofNat 64 (m.stack.base + m.stack.bytes.size), ?_, ?_⟩
+  · intro f hf; cases hf
+  · show 0 ≤ 8; omega
+  · intro k hk u hu
+    have hu' : (Vector.replicate 8 256)[k]? = some u := hu
+    rw [Vector.getElem?_eq_getElem hk] at hu'
+    simp at hu'
+    omega
+  · show (Vector.setIfInBounds _ 10 _)[10]? = _
+    rw [Vector.getElem?_setIfInBounds]; simp
+  · show _ + ((List.range 0).map _).sum = _
+    simp
+    omega
+
+theorem run_ne_panic (env : Env) (top : Nat) (hc : Verifier.check env.prog = .ok)
+    (hu : ∀ pc u, env.usage pc = some u → u < 65536) (htop : 2 ^ 20 ≤ top ∧ top < 2 ^ 63) (fuel : Nat) :
+    ∀ s : State, s.mem.mem.base + 2 ^ 32 < 2 ^ 64 → StartInv env top s → run env s fuel ≠ .panic := by
+  induction fuel with
+  | zero => intro s _ _; simp [run]
+  | succ n ih =>
+    intro s hmem hs
+    have hg := step_good env top s hc hu htop hmem hs
+    rw [run]
+    cases hst : step env s with
+    | next s' =>
+      obtain ⟨h1, h2⟩ := hg.of_next hst
+      exact ih s' (by rw [h2]; exact hmem) h1
+    | done r s' => simp
+    | err e s' => simp
+    | panic => exact absurd hst hg.ne_panic
+    | fault => simp
 
 end Rbpf
